@@ -112,6 +112,10 @@ func checkCommand(c cmdCase) error {
 	if res.TimedOut {
 		return fmt.Errorf("%s %v did not terminate within 90 s, three times in a row", c.Tool, args)
 	}
+	if res.ResourceExhausted() {
+		evid.Class("resource_exhaustion_inconclusive", 1)
+		return nil
+	}
 	if res.Exit != 0 {
 		return fmt.Errorf("%s %v exited with status %d: %s", c.Tool, args, res.Exit, tail(res.Stderr))
 	}
